@@ -37,7 +37,7 @@ def main():
             continue
         t = time.time()
         try:
-            c = sh(f"/verif/check {prop} quick 2>/dev/null", timeout=3000, env=dict(os.environ, VERIF_FAILFAST=os.environ.get("VERIF_FAILFAST", "1")))
+            c = sh(f"/verif/check {prop} quick 2>/dev/null", timeout=3000, env=dict(os.environ, VERIF_FAILFAST=os.environ.get("VERIF_FAILFAST", "1"), VERIF_EVIDENCE_DIR="/verif/work/campaign-evidence"))
             out, rc = c.stdout, c.returncode
         except subprocess.TimeoutExpired:
             out, rc = "", -1
